@@ -360,8 +360,9 @@ impl Color3f<Hsl> {
 
         rgb.map(|ch| {
             let ch = ch + m;
-            debug_assert!(0.0 <= ch && ch <= 1.0, "channel oob: {ch:?}");
-            ch
+            // Rounding may push a channel slightly out of range
+            debug_assert!(-1e-6 <= ch && ch <= 1.0 + 1e-6, "channel oob: {ch:?}");
+            ch.clamp(0.0, 1.0)
         })
         .into()
     }
